@@ -11,13 +11,19 @@ Target Go types are described by `ATy` (what `reflect` tells `parseField`), stru
   `Marshal` itself produces for the parsed value (true DER for the target type). It is the explicit
   `Canon` predicate of the round-trip theorem `marshal_parse` (CTV/Props/C10.lean).
 
-`time.Time` and `interface{}` targets are not in `ATy` (first iteration; they are covered by the
-differential part of the C10 harness only).
+`time.Time` and `interface{}` targets are in `ATy` too (`Canon` has no `interface{}` targets).
 -/
 namespace CTV.Der
 
 inductive Mode | lax | strict | canon
   deriving Repr, DecidableEq, Inhabited
+
+/-- mode for the fields of a struct: under a RawContent struct `Marshal` writes the raw octets back whatever the
+fields look like, so `canon` asks of them only what `strict` asks -/
+def Mode.under (m : Mode) (raw : Bool) : Mode :=
+  match m, raw with
+  | .canon, true => .strict
+  | m, _ => m
 
 def Mode.isLax : Mode → Bool | .lax => true | _ => false
 def Mode.isCanon : Mode → Bool | .canon => true | _ => false
@@ -167,6 +173,7 @@ def defaultVal (t : ATy) (p : FP) : AVal :=
 /-- `reflect.DeepEqual(v, zero)` for a value as `parseField` builds it: everything that was present
 on the wire and is a slice or pointer is non-nil, hence not zero. -/
 def isZero : AVal → Bool
+  | .absent (.int i) => i == 0   -- an absent integer field holds its `default:` value, which need not be zero
   | .absent _ => true
   | .bool b => !b
   | .int i => i == 0
@@ -188,6 +195,7 @@ mutual
 /-- `reflect.DeepEqual(v, zero)` directed by the target type: a `*big.Int` that was present on the wire is a
 non-nil pointer and never equals the zero value, at any depth -/
 def isZeroAt : ATy → AVal → Bool
+  | _, .absent (.int i) => i == 0
   | _, .absent _ => true
   | .bigInt, _ => false
   | .struct _ fs, .struct raw vs => (raw.getD []).isEmpty && allZeroAt fs vs
@@ -368,7 +376,7 @@ def canonParams (t : ATy) (p : FP) : Bool :=
   let isRaw := match t with | .rawValue => true | _ => false
   let isTime := match t with | .time => true | _ => false
   isRaw ||
-  ((!p.set || isSeq) && (p.stringType == 0 || isStr) && (p.timeType == 0 || isTime) &&
+  ((!p.explicit || p.tag.isSome) && (!p.set || isSeq) && (p.stringType == 0 || isStr) && (p.timeType == 0 || isTime) &&
    (match p.tag with
     | none => true
     | some _ => if p.explicit then marshalClass p == (if p.application then 1 else 2)
@@ -442,7 +450,7 @@ mutual
 def parseField (d : Dialect) (m : Mode) : ATy → FP → Bytes → Except Err (AVal × Bytes)
   | .struct raw fs, p, bs =>
     fieldShell d m (.struct raw fs) p bs fun _ _ inner consumed =>
-      match parseFields d m fs inner with
+      match parseFields d (m.under raw) fs inner with
       | .error e => .error e
       | .ok (vs, left) =>
         if m.isCanon && !raw && !left.isEmpty then .error .other
@@ -517,6 +525,20 @@ def insertSorted (x : Bytes) : List Bytes → List Bytes
 /-- upstream's `setEncoder`: element encodings in ascending octet-string order -/
 def sortEncodings (l : List Bytes) : List Bytes := l.foldr insertSorted []
 
+/-- a nil `*big.Int` (a big-integer field left at its zero value) -/
+def nilBigInt (t : ATy) (v : AVal) : Bool :=
+  match t, v with
+  | .bigInt, .absent _ => true
+  | _, _ => false
+
+/-- the end of `makeField`: universal header, implicit tag, or explicit wrapper around the universal element -/
+def wrapAs (p : FP) (isCompound : Bool) (tag : Nat) (b : Bytes) : Bytes :=
+  match p.tag with
+  | some ptag =>
+    if p.explicit then wrapHeader (marshalClass p) true ptag (wrapHeader 0 isCompound tag b)
+    else wrapHeader (marshalClass p) isCompound ptag b
+  | none => wrapHeader 0 isCompound tag b
+
 /-- the static Go type of the value stored in an `interface{}` by `parseField` -/
 def dynType : AVal → Option ATy
   | .str _ _ => some .str
@@ -538,7 +560,7 @@ def marshalShell (t : ATy) (p : FP) (v : AVal) (body : AVal → Except Err Bytes
     | _, v' =>
       let (_, tag0, isCompound) := universalType t
       -- a nil *big.Int (`makeBigInt`: "empty integer")
-      if (match t, v with | .bigInt, .absent _ => true | _, _ => false) then .error .structural else
+      if nilBigInt t v then .error .structural else
       let v := v'
       if p.timeType ≠ 0 && tag0 ≠ tagUTCTime then .error .structural
       else if p.stringType ≠ 0 && tag0 ≠ tagPrintableString then .error .structural
@@ -560,14 +582,7 @@ def marshalShell (t : ATy) (p : FP) (v : AVal) (body : AVal → Except Err Bytes
             let tag := if p.set then tagSet else tag1
             match body v with
             | .error e => .error e
-            | .ok b =>
-              match p.tag with
-              | some ptag =>
-                if p.explicit then
-                  let innerTLV := wrapHeader 0 isCompound tag b
-                  .ok (wrapHeader (marshalClass p) true ptag innerTLV)
-                else .ok (wrapHeader (marshalClass p) isCompound ptag b)
-              | none => .ok (wrapHeader 0 isCompound tag b)
+            | .ok b => .ok (wrapAs p isCompound tag b)
 
 
 /-- the element loop of `makeBody` for a slice -/
